@@ -14,7 +14,15 @@ class AsyncFakeSocket(_fakesocket.FakeSocket):
     def put_response(self, msg):
         self.responses.put_nowait(msg)
 
+    def close(self):
+        # A blocking pop still waiting on this connection must not outlive it
+        task = getattr(self, '_blocking_task', None)
+        if task is not None:
+            task.cancel()
+        super().close()
+
     async def _async_blocking(self, timeout, func, event, callback):
+        server, db = self._server, self._db
         try:
             result = None
             async with async_timeout.timeout(timeout if timeout else None):
@@ -23,7 +31,7 @@ class AsyncFakeSocket(_fakesocket.FakeSocket):
                     event.clear()
                     # This is a coroutine outside the normal control flow that
                     # locks the server, so we have to take our own lock.
-                    with self._server.lock:
+                    with server.lock:
                         ret = func(False)
                         if ret is not None:
                             result = self._decode_result(ret)
@@ -34,10 +42,12 @@ class AsyncFakeSocket(_fakesocket.FakeSocket):
             # An error raised by the re-check is the reply, as in the synchronous version
             result = self._decode_result(exc)
         finally:
-            with self._server.lock:
-                self._db.remove_change_callback(callback)
-            self.put_response(result)
-            self.resume()
+            with server.lock:
+                db.remove_change_callback(callback)
+            self._blocking_task = None
+            if self._server is not None:
+                self.put_response(result)
+                self.resume()
 
     def _blocking(self, timeout, func):
         loop = asyncio.get_event_loop()
@@ -50,5 +60,5 @@ class AsyncFakeSocket(_fakesocket.FakeSocket):
             loop.call_soon_threadsafe(event.set)
         self._db.add_change_callback(callback)
         self.pause()
-        loop.create_task(self._async_blocking(timeout, func, event, callback))
+        self._blocking_task = loop.create_task(self._async_blocking(timeout, func, event, callback))
         return _helpers.NoResponse()
